@@ -186,11 +186,13 @@ extern size_t g_lp_c;
 /* chunk i, if it is one of the list's unread chunks, is a well-formed buffer
  * (offset <= used <= size, readable memory that is not part of the ghost
  * state), and the ghost sums add up without wrapping (the designated octets
- * number fewer than 2^64) */
+ * number fewer than 2^64); the last conjunct, every partial sum is at most the
+ * total, follows from the others and is spelt out for the solver */
 #define LP_CHUNK_OK(oc, i) \
   IMPLIES((oc)->active <= (size_t)(i) && (size_t)(i) < (oc)->chunks, \
     BB_WF(&LP_CH(oc, i)) && __CPROVER_r_ok(LP_CH(oc, i).data, LP_CH(oc, i).size) && LP_SEP(LP_CH(oc, i).data) \
-    && g_lp_sum[(i) + 1] == g_lp_sum[i] + LP_CH_REST(oc, i) && g_lp_sum[(i) + 1] >= g_lp_sum[i])
+    && g_lp_sum[(i) + 1] == g_lp_sum[i] + LP_CH_REST(oc, i) && g_lp_sum[(i) + 1] >= g_lp_sum[i] \
+    && g_lp_sum[(i) + 1] <= LP_TOTAL(oc))
 #define LP_CHUNKS_OK(oc) \
   (__CPROVER_r_ok((oc), sizeof(ByteChunks)) && (oc)->chunks <= LP_CMAX && (oc)->active <= (oc)->chunks \
    && IMPLIES((oc)->chunks > 0u, __CPROVER_r_ok((oc)->chunk, (oc)->chunks * sizeof(ByteBuffer))) \
@@ -248,24 +250,37 @@ __CPROVER_ensures(IMPLIES(LP_FITS(k, LP_TOTAL(&lpc->payload)),
 /* position of g_b relative to the sink position at entry */
 #define LP_B_REL ((size_t)(g_b - __CPROVER_old(g_snk_pos)))
 #define LP_B_SEEN (g_b >= __CPROVER_old(g_snk_pos) && g_b < g_snk_pos)
+/* sink position of the first payload octet of the frame (stream positions do
+ * not wrap, assumption of the C17 stubs: where this sum wraps the driver
+ * cannot have accepted the prefix) */
+#define LP_PAY0(k, n) ((size_t)(__CPROVER_old(g_snk_pos) + lp_spec_len((k), (n))))
+#define LP_PAY0_OK(k, n) (LP_PAY0(k, n) >= __CPROVER_old(g_snk_pos))
+/* g_b is a payload position the driver has got to; its payload index */
+#define LP_B_IN_PAYLOAD(k, n) (LP_PAY0_OK(k, n) && g_b >= LP_PAY0(k, n) && g_b < g_snk_pos)
+#define LP_B_PAY(k, n) ((size_t)(g_b - LP_PAY0(k, n)))
+/* the driver accepted at most / fewer than  prefix length + n  octets */
+#define LP_SNK_WITHIN(k, n) (g_snk_pos >= __CPROVER_old(g_snk_pos) \
+   && (!LP_PAY0_OK(k, n) || g_snk_pos <= LP_PAY0(k, n) || (size_t)(g_snk_pos - LP_PAY0(k, n)) <= (size_t)(n)))
+#define LP_SNK_PARTIAL(k, n) \
+  (!LP_PAY0_OK(k, n) || g_snk_pos < LP_PAY0(k, n) || (size_t)(g_snk_pos - LP_PAY0(k, n)) < (size_t)(n))
 /* the octet the sink driver received at the observed position belongs to the
  * frame prefix(k, n) ++ buf[0..n): checked as far as the driver got (g_b below
  * the current position); elsewhere the observed value is the old one */
 #define LP_SNK_FRAME_MEM(k, n, buf) \
-  (g_snk_pos >= __CPROVER_old(g_snk_pos) && EP_DELIVERED <= lp_spec_len((k), (n)) + (size_t)(n) \
+  (LP_SNK_WITHIN(k, n) \
    && IMPLIES(LP_B_SEEN && LP_B_REL < lp_spec_len((k), (n)), g_snk_val == lp_spec_octet((k), (n), LP_B_REL)) \
-   && IMPLIES(LP_B_SEEN && LP_B_REL >= lp_spec_len((k), (n)) && LP_B_REL - lp_spec_len((k), (n)) < (size_t)(n), \
-        g_snk_val == ((const unsigned char *)(buf))[LP_B_REL - lp_spec_len((k), (n))]) \
+   && IMPLIES(LP_B_IN_PAYLOAD(k, n) && LP_B_PAY(k, n) < (size_t)(n), \
+        g_snk_val == ((const unsigned char *)(buf))[LP_B_PAY(k, n)]) \
    && IMPLIES(!LP_B_SEEN, g_snk_val == __CPROVER_old(g_snk_val)))
 /* all of it arrived and the total is reported */
 #define LP_SNK_DONE(k, n, ret) \
   ((size_t)(ret) == lp_spec_len((k), (n)) + (size_t)(n) \
-   && g_snk_pos == (size_t)(__CPROVER_old(g_snk_pos) + lp_spec_len((k), (n)) + (size_t)(n)) \
+   && LP_PAY0_OK(k, n) && g_snk_pos == (size_t)(LP_PAY0(k, n) + (size_t)(n)) && g_snk_pos >= LP_PAY0(k, n) \
    && g_snk_nhard == __CPROVER_old(g_snk_nhard))
 /* the sink driver failed hard: its value comes back, a proper part arrived */
 #define LP_SNK_BROKE(k, n, ret) \
   ((ret) == g_snk_err && !EP_TRANSIENT(ret) && g_snk_nhard == (size_t)(__CPROVER_old(g_snk_nhard) + 1u) \
-   && EP_DELIVERED < lp_spec_len((k), (n)) + (size_t)(n))
+   && LP_SNK_PARTIAL(k, n))
 
 /* memory: the n octets at buf */
 ssize_t flenp_memory_to_sink(const LengthPrefixKind k, Sink *sink, void *buf, size_t n)
@@ -316,23 +331,30 @@ __CPROVER_ensures(IMPLIES(n <= LP_REST_O(b) && LP_FITS_TOTAL(k, n) && n >= 1u,
 
 /* chunk list: the concatenation of the unread parts from `active` on (empty
  * chunks allowed); the list is left alone */
-#define LP_SNK_FRAME_CHUNKS(k, oc) \
-  (g_snk_pos >= __CPROVER_old(g_snk_pos) && EP_DELIVERED <= lp_spec_len((k), LP_TOTAL(oc)) + LP_TOTAL(oc) \
-   && IMPLIES(LP_B_SEEN && LP_B_REL < lp_spec_len((k), LP_TOTAL(oc)), \
-        g_snk_val == lp_spec_octet((k), LP_TOTAL(oc), LP_B_REL)) \
-   && IMPLIES(LP_B_SEEN && LP_B_REL >= lp_spec_len((k), LP_TOTAL(oc)) \
-        && LP_IN_CHUNK(oc, g_lp_c, LP_B_REL - lp_spec_len((k), LP_TOTAL(oc))), \
-        g_snk_val == LP_CHUNK_OCTET(oc, g_lp_c, LP_B_REL - lp_spec_len((k), LP_TOTAL(oc)))) \
-   && IMPLIES(!LP_B_SEEN, g_snk_val == __CPROVER_old(g_snk_val)))
+/* the octet received at the observed position is the prefix's ... */
+#define LP_SNK_CHUNKS_PREFIX(k, oc) \
+  IMPLIES(LP_B_SEEN && LP_B_REL < lp_spec_len((k), LP_TOTAL(oc)), \
+        g_snk_val == lp_spec_octet((k), LP_TOTAL(oc), LP_B_REL))
+/* ... or the payload's, seen through the observed chunk */
+#define LP_SNK_CHUNKS_PAYLOAD(k, oc) \
+  IMPLIES(LP_B_IN_PAYLOAD(k, LP_TOTAL(oc)) && LP_IN_CHUNK(oc, g_lp_c, LP_B_PAY(k, LP_TOTAL(oc))), \
+        g_snk_val == LP_CHUNK_OCTET(oc, g_lp_c, LP_B_PAY(k, LP_TOTAL(oc))))
 
 ssize_t flenp_chunks_to_sink(const LengthPrefixKind k, Sink *sink, ByteChunks *oc)
 __CPROVER_requires(LP_KIND_OK(k) && LP_STATIC_OK() && EP_SINK_OK(sink) && LP_CHUNKS_OK(oc))
 __CPROVER_assigns(LP_SNK_ASSIGNS)
 __CPROVER_ensures(IMPLIES(!LP_FITS_TOTAL(k, LP_TOTAL(oc)), __CPROVER_return_value == -EINVAL && LP_SNK_UNTOUCHED))
+__CPROVER_ensures(IMPLIES(LP_FITS_TOTAL(k, LP_TOTAL(oc)) && LP_TOTAL(oc) >= 1u, __CPROVER_return_value != 0))
 __CPROVER_ensures(IMPLIES(LP_FITS_TOTAL(k, LP_TOTAL(oc)) && LP_TOTAL(oc) >= 1u,
-    __CPROVER_return_value != 0 && LP_SNK_FRAME_CHUNKS(k, oc)
-    && IMPLIES(__CPROVER_return_value > 0, LP_SNK_DONE(k, LP_TOTAL(oc), __CPROVER_return_value))
-    && IMPLIES(__CPROVER_return_value < 0, LP_SNK_BROKE(k, LP_TOTAL(oc), __CPROVER_return_value))))
+    LP_SNK_WITHIN(k, LP_TOTAL(oc))))
+__CPROVER_ensures(IMPLIES(LP_FITS_TOTAL(k, LP_TOTAL(oc)) && LP_TOTAL(oc) >= 1u, LP_SNK_CHUNKS_PREFIX(k, oc)))
+__CPROVER_ensures(IMPLIES(LP_FITS_TOTAL(k, LP_TOTAL(oc)) && LP_TOTAL(oc) >= 1u, LP_SNK_CHUNKS_PAYLOAD(k, oc)))
+__CPROVER_ensures(IMPLIES(LP_FITS_TOTAL(k, LP_TOTAL(oc)) && LP_TOTAL(oc) >= 1u,
+    IMPLIES(!LP_B_SEEN, g_snk_val == __CPROVER_old(g_snk_val))))
+__CPROVER_ensures(IMPLIES(LP_FITS_TOTAL(k, LP_TOTAL(oc)) && LP_TOTAL(oc) >= 1u && __CPROVER_return_value > 0,
+    LP_SNK_DONE(k, LP_TOTAL(oc), __CPROVER_return_value)))
+__CPROVER_ensures(IMPLIES(LP_FITS_TOTAL(k, LP_TOTAL(oc)) && LP_TOTAL(oc) >= 1u && __CPROVER_return_value < 0,
+    LP_SNK_BROKE(k, LP_TOTAL(oc), __CPROVER_return_value)))
 ;
 
 /* ---- decoders --------------------------------------------------------------- */
